@@ -20,7 +20,7 @@ func C16(c *Ctx) int {
 	if !c.Quick() {
 		maxOps = 4
 	}
-	cfg := fmt.Sprintf("SPECIFICATION Spec\nCONSTANTS\n  OutTable = %q\n  OutBehaviours = %q\n  MaxOps = %d\nINVARIANT TableTotal\nPROPERTIES Isolation\nCONSTRAINT Record\nPOSTCONDITION Dump\nCHECK_DEADLOCK FALSE\n", tableFile, behFile, maxOps)
+	cfg := fmt.Sprintf("SPECIFICATION Spec\nCONSTANTS\n  OutTable = %q\n  OutBehaviours = %q\n  MaxOps = %d\nINVARIANT TableTotal\nPROPERTIES Isolation SnapshotIsAValue\nCONSTRAINT Record\nPOSTCONDITION Dump\nCHECK_DEADLOCK FALSE\n", tableFile, behFile, maxOps)
 	res, err := RunTLC(dir, "ValueLayer", cfg, TLCOpts{Workers: 1, Timeout: 20 * time.Minute})
 	if err != nil {
 		c.Infraf("ValueLayer.tla: %v", err)
@@ -110,5 +110,5 @@ func C16(c *Ctx) int {
 	c.Extra["table_rows"] = len(kinds) * 7
 	c.Extra["store_behaviours_replayed"] = nb
 	c.Samples = append(c.Samples, map[string]any{"row": job.Values[0], "concrete_values": fmt.Sprintf("%#v", drive.Samples(job.Values[0].Kind))})
-	return c.Finish("model_checking", "ValueLayer.tla: the dispatch table declared item type x dynamic Go kind -> (item type, canonical class) checked for totality, and the per-instance variable store (Set/Get over 2 instances) checked for isolation; TLC exports the table rows and every store behaviour up to MaxOps operations; the Go side instantiates every row and abstract value with concrete boundary values (all integer widths within int64, floats, unicode strings, nested slices/maps, structs, pointers, nil) and steps the real schema.Value / FlowDataLocator / engine (variables, task results, data outputs, olive property and header references to present and absent paths); any panic is a rejection", true, fs)
+	return c.Finish("model_checking", "ValueLayer.tla: the dispatch table declared item type x dynamic Go kind -> (item type, canonical class) checked for totality, and the per-instance variable store (Set / Get / CloneVariables snapshot / Merge over 2 instances created separately, from one shared option list, or from one shared option list holding a ready-made item) checked for isolation and for snapshots and handed-in items being values; TLC exports the table rows and every store behaviour up to MaxOps operations; the Go side instantiates every row and abstract value with concrete boundary values (all integer widths within int64, floats, unicode strings, nested slices/maps, structs, pointers, nil) and steps the real schema.Value / FlowDataLocator / engine (variables, task results, data outputs, olive property and header references to present and absent paths); any panic is a rejection", true, fs)
 }
